@@ -1,6 +1,6 @@
 (* [[Call]] / [[Construct]], the fuel knot, the initial realm and the script runner of JSRef. *)
 From Coq Require Import ZArith NArith PArith List Bool String Floats.SpecFloat.
-From JSRef Require Import Float Syntax Values Static Ops Interp Machine Builtins.
+From JSRef Require Import Float Syntax Values Static Ops Promises Interp Machine Builtins.
 Import ListNotations.
 Open Scope m_scope.
 
@@ -263,6 +263,15 @@ Definition init_realm : M unit :=
   do _ <- defn rl "ownKeys" NReflectOwnKeys 1;;
   do _ <- defsym rl SYM_TOSTRINGTAG (VStr (S "Reflect")) false;;
   do _ <- def L_Global "Reflect" (VObj rl);;
+  (* Promise *)
+  do _ <- ctor_at L_Promise NPromise "Promise" 1 L_PromiseProto;;
+  do _ <- defn L_Promise "resolve" NPromiseResolve 1;; do _ <- defn L_Promise "reject" NPromiseReject 1;;
+  do _ <- defn L_Promise "all" NPromiseAll 1;; do _ <- defn L_Promise "race" NPromiseRace 1;;
+  do _ <- defn L_PromiseProto "then" NPromiseProtoThen 2;; do _ <- defn L_PromiseProto "catch" NPromiseProtoCatch 1;;
+  do _ <- defn L_PromiseProto "finally" NPromiseProtoFinally 1;;
+  do _ <- defsym L_PromiseProto SYM_TOSTRINGTAG (VStr (S "Promise")) false;;
+  do afo <- the_obj L_AsyncFunctionProto;;
+  do _ <- put_obj L_AsyncFunctionProto (with_props afo [(KSym SYM_TOSTRINGTAG, PData (VStr (S "AsyncFunction")) false false true)]);;
   (* global environments *)
   fun st =>
     let st1 := set_env st E_GlobalObj {| e_rec := EObj L_Global false; e_outer := None; e_this := TInit (VObj L_Global); e_fobj := None; e_newtarget := VUndef |} in
@@ -322,6 +331,25 @@ Definition global_declaration_instantiation (P : prog) (self : ops) (body : list
 Definition script_frames (P : prog) : list frame :=
   [KSeq (p_body P) (if p_strict P then Some (VStr (S "use strict")) else None)].
 
+(* run [m], then drain the job queue whatever its outcome (the host runs the jobs after the script): the completion is
+   m's, the state (printed lines) is the one after the jobs *)
+Definition then_drain (self : ops) (m : M value) : M value :=
+  fun st =>
+    match m st with
+    | ROk v st1 =>
+        match run_jobs self st1 with
+        | ROk _ st2 | RThrow _ st2 => ROk v st2
+        | RFuel => RFuel
+        | RUnsupported c => RUnsupported c end
+    | RThrow v st1 =>
+        match run_jobs self st1 with
+        | ROk _ st2 | RThrow _ st2 => RThrow v st2
+        | RFuel => RFuel
+        | RUnsupported c => RUnsupported c end
+    | RFuel => RFuel
+    | RUnsupported c => RUnsupported c
+    end.
+
 Definition run_script (fuel : nat) (P : prog) (st0 : state) : outcome :=
   let self := mk P fuel in
   let c := global_ctx (p_strict P) in
@@ -335,7 +363,7 @@ Definition run_script (fuel : nat) (P : prog) (st0 : state) : outcome :=
     | MDone _ => ret VUndef
     | _ => unsupported 990%N
     end in
-  match m st0 with
+  match then_drain self m st0 with
   | ROk v st => OValue v st
   | RThrow v st => OThrow v st
   | RFuel => OFuel
